@@ -64,6 +64,7 @@ fn main() {
 fn dispatch(id: &str, tier: Tier) -> i32 {
     match id {
         "C01" => props::c01::run(tier),
+        "C02" => props::c02::run(tier),
         "C05" => props::c05::run(tier),
         "C06" => props::c06::run(tier),
         "C08" => props::c08::run(tier),
